@@ -16,6 +16,7 @@ Definition parse_fval (dt : dtype) (t : string) : option value :=
   | String_ => if String.eqb t "-" then Some (VStr []) else option_map VStr (parse_hex t)
   | Unsigned8 => option_map VU8 (parse_N t)
   | Unsigned16 => option_map VU16 (parse_N t)
+  | DateTimeSeconds => option_map VDts (parse_N t)
   | Unsigned64 => option_map VU64 (parse_N t)
   | Signed32 => option_map VI32 (parse_Z t)
   | Ipv4Address | Ipv6Address =>
@@ -27,7 +28,7 @@ Definition show_fval (v : value) : string :=
   match v with
   | VStr [] => "-"
   | VStr s => show_hex s
-  | VU8 n | VU16 n | VU64 n => show_N n
+  | VU8 n | VU16 n | VDts n | VU64 n => show_N n
   | VI32 z => show_Z z
   | VIP o => match obytes o with [] => "nil" | b => show_hex b end
   | _ => "unsupported"
